@@ -134,7 +134,7 @@ def build_harness(name, profile, sources, exclude=(), wraps=(), cflags=(), inclu
     cc, pf = PROFILES[profile]
     inc, _ = include_flags()
     flags = pf + inc + WARN_OFF + ["-I" + os.path.join(VERIF, "engine"), "-I" + os.path.join(VERIF, "harness"),
-                                   '-DVERIF_REPO_DIR="%s"' % REPO] + list(cflags)
+                                   "-I" + os.path.join(REPO, "src"), '-DVERIF_REPO_DIR="%s"' % REPO] + list(cflags)
     lib = build_lib(profile)
     outdir = os.path.join(BUILD, profile, "h", name)
     dep = _repo_text_for(includes_repo_src)
